@@ -991,6 +991,8 @@ from mlmverif.selfcheck import B, OK  # noqa: E402
 _F = 'chainables/tree_fns.py'
 _T = 'chainables/transform.py'
 VARIANTS = [
+    OK('setter-copy-as-statement', 'chainables/tree.py',
+       "      result = tree if in_place else copy.copy(tree)", "      if in_place:\n        result = tree\n      else:\n        result = copy.copy(tree)"),
     B('none-parent-taken-for-a-missing-key', 'chainables/tree.py',
       "          result[key] = self._set_by_path(\n              result.get(key, NullMap()), Key(rest_keys), value, in_place\n          )",
       "          if (child := result.get(key)) is None:\n            child = NullMap()\n          result[key] = self._set_by_path(\n              child, Key(rest_keys), value, in_place\n          )", 'R-C08-25'),
